@@ -34,6 +34,9 @@ func init() {
 }
 
 func runC05(w *World, r *Report) {
+	hrAPIStreamAccessors(w, r, "R5")
+	hrEmptyDocument(w, r, "R2")
+	hrParentWalk(w, r, "R4")
 	hrResponseNilGuard(w, r, "R5")
 	hrParseHeaders(w, r, "R5")
 	hrExtractKeyValuePair(w, r, "R2")
